@@ -46,3 +46,14 @@ Proof.
   intros h'. rewrite AsyncFacts.never_woken_run. reflexivity.
 Qed.
 Print Assumptions C15_refuted.
+
+(** the source registers the polling task's waker between the two attempts - after a failed first attempt, before the re-check
+    (gen/PollGen.v, the symbolic execution of [MRBFuture::poll] regenerated on every run) *)
+Require MRB.Model.PollShape MRB.gen.PollGen.
+Theorem C15_registration_before_recheck :
+  PollGen.poll_clean = true /\
+  PollGen.poll_shape = [([true], [PollShape.PAttempt], PollShape.PReady);
+                        ([false; true], [PollShape.PAttempt; PollShape.PRegister; PollShape.PAttempt], PollShape.PReady);
+                        ([false; false], [PollShape.PAttempt; PollShape.PRegister; PollShape.PAttempt], PollShape.PPending)].
+Proof. split; reflexivity. Qed.
+Print Assumptions C15_registration_before_recheck.
